@@ -618,12 +618,38 @@ func isNullValue(fd protoreflect.FieldDescriptor) bool {
 	return ed != nil && ed.FullName() == "google.protobuf.NullValue"
 }
 
+// fieldOn returns the descriptor of the field fd on msg. A route keeps the
+// field descriptors of the descriptor instance it was first registered with,
+// but each connection (and the local file registry) has its own instance of a
+// service's descriptors and protoreflect only accepts a message's own field
+// descriptors: translate by field number.
+func fieldOn(msg protoreflect.Message, fd protoreflect.FieldDescriptor) protoreflect.FieldDescriptor {
+	md := msg.Descriptor()
+	if fd.ContainingMessage() == md {
+		return fd
+	}
+	if own := md.Fields().ByNumber(fd.Number()); own != nil &&
+		own.Kind() == fd.Kind() && own.Cardinality() == fd.Cardinality() {
+		return own
+	}
+	return fd
+}
+
+// mutableMessage walks the message fields fds starting at cur.
+func mutableMessage(cur protoreflect.Message, fds []protoreflect.FieldDescriptor) protoreflect.Message {
+	for _, fd := range fds {
+		cur = cur.Mutable(fieldOn(cur, fd)).Message()
+	}
+	return cur
+}
+
 type params []param
 
 func (ps params) set(m proto.Message) error {
 	for _, p := range ps {
 		cur := m.ProtoReflect()
 		for i, fd := range p.fds {
+			fd = fieldOn(cur, fd)
 			if len(p.fds)-1 == i {
 				switch {
 				case fd.IsList():
